@@ -80,6 +80,10 @@ class ScfYieldLowering(RewritePattern):
 
     @op_type_rewrite_pattern
     def match_and_rewrite(self, op: scf.YieldOp, rewriter: PatternRewriter) -> None:
+        # only the terminator of a loop body is lowered: the yields of `scf.if`,
+        # `scf.while`, `scf.index_switch`, … keep their parent, which is not converted
+        if not isinstance(op.parent_op(), scf.ForOp | x86_scf.ForOp):
+            return
         rewriter.replace(
             op, x86_scf.YieldOp(*self.arch.cast_to_regs(op.operands, rewriter))
         )
